@@ -570,7 +570,12 @@ impl PoeticNumberLiteral {
 
     fn ten_to_the(n: i32) -> f64 {
         // TODO optimize small N's with lookup table?
-        10.0f64.powi(n)
+        if n < -300 {
+            // powi computes 1 / 10^-n, and 10^-n overflows beyond 10^308: split the power
+            1e-300 * 10.0f64.powi(n + 300)
+        } else {
+            10.0f64.powi(n)
+        }
     }
 
     fn word_len(s: &str) -> usize {
@@ -592,7 +597,11 @@ impl PoeticNumberLiteral {
                         .map(|x| Self::word_len(x))
                         .fold(Self::word_len(s0), |a, b| a + b),
                 };
-                (length % 10) as f64 * Self::ten_to_the(exponent - idx as i32)
+                match length % 10 {
+                    // a zero digit contributes nothing, also where the power of ten overflows
+                    0 => 0.0,
+                    digit => digit as f64 * Self::ten_to_the(exponent - idx as i32),
+                }
             })
             .sum()
     }
